@@ -143,11 +143,11 @@ func TestVerifC17TLS(t *testing.T) {
 	rep := report.New("C17 TLS authentication")
 	defer rep.Write()
 	rep.Rule = "E1 full matrix with real crypto/tls on loopback, built with the repository's own Go toolchain, every router started from configuration by run(): " +
-		"(upstream) kind {tls, https} x URL host {dot.example, 1.2.3.4, [::1], [2001:db8::53]} (dialled via dial_addr to a local server) x server certificate {valid for all hosts, wrong name, unknown CA, expired, self-signed} x " +
+		"(upstream) kind {tls, https} x URL host {dot.example, 1.2.3.4, [::1], [2001:db8::53]} (dialled via dial_addr to a local server) x server certificate {valid for all hosts, wrong name, unknown CA, expired, self-signed, chaining to a root of the system trust store (SSL_CERT_FILE) but not to the configured ca} x " +
 		"tls options in the order {ca configured, another ca configured, no ca, ca again, insecure_skip_verify, another ca again} against the same server instance and name (earlier upstreams leave their traces in the process: session tickets, caches); " +
 		"oracle: exchange succeeds iff verification is disabled or the certificate is valid for the host and chains to the configured ca; SNI equals the URL host for names (none for IP literals) and the HTTP Host header equals the URL host; " +
 		"(listener) one router with, per kind {tls, https, quic}, a listener that verifies client certificates and one that does not, sharing the same cert/key/ca files, in every start order {verifying first, non-verifying first, an upstream using the same files for mutual TLS first}, " +
-		"and verification on without a ca (system roots) x client certificate {none, signed by the configured CA, signed by another CA, expired}; oracle: a verifying listener answers a query only for the certificate chaining to the configured CA, a non-verifying one answers everybody"
+		"and verification on without a ca (system roots) x client certificate {none, signed by the configured CA, signed by another CA, expired, chaining to a system root}; oracle: a verifying listener answers a query only for the certificate chaining to the configured CA, a non-verifying one answers everybody"
 	if sh, _ := report.Shard(); sh != 0 {
 		rep.Eval("idle-shard")
 		rep.Eval("idle-shard2")
@@ -159,6 +159,15 @@ func TestVerifC17TLS(t *testing.T) {
 	}
 	defer os.RemoveAll(dir)
 	ca, other := c17NewCA("verif CA"), c17NewCA("other CA")
+	// a root of the *system* trust store (the store is read lazily, on first use, from SSL_CERT_FILE): a peer certificate that chains
+	// to it is valid for the public at large, but not for an upstream or listener that was given its own ca
+	sysCA := c17NewCA("system root")
+	sysFile := filepath.Join(dir, "system_roots.pem")
+	os.WriteFile(sysFile, sysCA.pem, 0o644)
+	emptyDir := filepath.Join(dir, "empty_certs")
+	os.Mkdir(emptyDir, 0o755)
+	os.Setenv("SSL_CERT_FILE", sysFile)
+	os.Setenv("SSL_CERT_DIR", emptyDir)
 	caFile := filepath.Join(dir, "ca.pem")
 	os.WriteFile(caFile, ca.pem, 0o644)
 	otherCAFile := filepath.Join(dir, "other_ca.pem")
@@ -177,6 +186,7 @@ func TestVerifC17TLS(t *testing.T) {
 		{"unknown-ca", mk(other.issue("srv", allDNS, allIPs, false, false)), false},
 		{"expired", mk(ca.issue("srv", allDNS, allIPs, true, false)), false},
 		{"self-signed", mk((*c17CA)(nil).issue("srv", allDNS, allIPs, false, false)), false},
+		{"system-root", mk(sysCA.issue("srv", allDNS, allIPs, false, false)), false},
 	}
 	// ---- upstream side
 	srv := &c17Server{}
@@ -267,7 +277,7 @@ func TestVerifC17TLS(t *testing.T) {
 					cancel()
 					r.close(nil)
 					ok := m != nil && xerr == nil
-					want := opt == "insecure" || (opt == "ca" && ck.valid) || (opt == "other-ca" && ck.name == "unknown-ca")
+					want := opt == "insecure" || (opt == "ca" && ck.valid) || (opt == "other-ca" && ck.name == "unknown-ca") || (opt == "no-ca" && ck.name == "system-root")
 					if ok != want {
 						sig := "accepted-bad-peer"
 						if want {
@@ -310,6 +320,7 @@ func TestVerifC17TLS(t *testing.T) {
 		{"signed-by-configured-ca", func() *tls.Certificate { c, _, _ := ca.issue("client", nil, nil, false, true); return &c }(), true},
 		{"signed-by-other-ca", func() *tls.Certificate { c, _, _ := other.issue("client", nil, nil, false, true); return &c }(), false},
 		{"expired", func() *tls.Certificate { c, _, _ := ca.issue("client", nil, nil, true, true); return &c }(), false},
+		{"signed-by-system-root", func() *tls.Certificate { c, _, _ := sysCA.issue("client", nil, nil, false, true); return &c }(), false},
 	}
 	type lst struct {
 		kind, addr string
@@ -360,6 +371,9 @@ func TestVerifC17TLS(t *testing.T) {
 				ccfg.RootCAs.AddCert(ca.cert)
 				if cc.cert != nil {
 					ccfg.Certificates = []tls.Certificate{*cc.cert}
+				}
+				if cc.name == "signed-by-system-root" && l.verify && !l.withCA {
+					continue // verification against the system roots: that certificate is then acceptable, nothing to judge
 				}
 				want := !l.verify || (cc.good && l.withCA)
 				desc := fmt.Sprintf("start-order=%s listener=%s verify_client_cert=%v ca=%v client-cert=%s", order, l.kind, l.verify, l.withCA, cc.name)
